@@ -119,12 +119,12 @@ def l1_raw_text(c1: int, c2: int, c3: int, c4: int) -> bool:
     return latex_text_ok(out)
 
 
-@lemma('L1.stateful', 'C17', quick=ks(2)[1:], thorough=ks(3)[1:], timeout=600,
+@lemma('L1.stateful', 'C17', quick=by('cf', [False, True], by('blk', [False, True], [{'k': 1}, {'k': 2}])), thorough=by('cf', [False, True], by('blk', [False, True], [{'k': 1}, {'k': 2}, {'k': 3, 'timeout': 3000}])), timeout=600,
        covers=['latex_renderer.py:LaTeXRenderer.render_raw_text', 'latex_renderer.py:LaTeXRenderer.render_inline_code', 'latex_renderer.py:LaTeXRenderer.render_block_code'],
        note='ONE renderer instance, the call sites of render_raw_text in the order a document can produce them: the same text first as code content (escape=False, through render_inline_code / render_block_code) and then as ordinary text (escape=True), and the other way round: the escaped result does not depend on the earlier call')
 def l1_stateful(c1: int, c2: int, c3: int, code_first: bool, block: bool) -> bool:
     """
-    pre: all_ok(cp_ok, P('k'), c1, c2, c3)
+    pre: fixed(code_first, 'cf') and fixed(block, 'blk') and all_ok(cp_ok, P('k'), c1, c2, c3)
     post: _
     """
     r = _r()
